@@ -27,7 +27,9 @@ RULE = ('solution histories in polar form (magnitudes 2^k or k/4; phases k/odd t
         '(K) delays with NaN; (B) bandpasses with NaN runs incl. edges and all-NaN, data channels on/between/outside '
         'cal channels; (G) gain histories with the INVALID_GAIN placeholder, NaN solutions, 1 or several channels, '
         'optional per-dump target sequence (self-cal); (F) flux tables with valid/NaN/zero/negative fluxes, aliases, '
-        'overrides, disabled; (S) multi-part products through a real SensorCache with missing parts / missing '
+        'overrides, disabled; (D) the K / B correction array calc_correction delivers per dump, DATA channel and correlation '
+        'product for cal channelisations equal to / within 1 mHz of / offset from / narrower / coarser than the data (same '
+        'count) or of another count (1..12 channels); (S) multi-part products through a real SensorCache with missing parts / missing '
         'timestamps per part and several substreams; (E) the registered Calibration/Corrections sensors end to end, the '
         'calculator chosen by the model dispatch table; (N) _normalise_cal_products exhaustively over <= 2 streams x all '
         'request forms; (P0) calc_correction on injected correction sensors: 1-7 products of 3 streams x 5 types, with '
@@ -42,7 +44,8 @@ RULE = ('solution histories in polar form (magnitudes 2^k or k/4; phases k/odd t
 ASSUMPTIONS = [
     'the ONE tolerance: finite complex outputs are compared with |impl - model| <= 8 * 2^-23 * |model| (8 ulp of '
     'complex64), needed because cos/sin/angle/sqrt are computed in floating point (cos(pi/2) is not 0); '
-    'NaN-ness, events, lengths, names and product lists are compared exactly',
+    'NaN-ness, events, lengths, names and product lists are compared exactly; the product of two corrections delivered '
+    'by calc_correction (stream D) is compared within 16 ulp of complex64',
     'consecutive valid phases never differ by exactly half a turn (mod 1): np.unwrap decides that case on rounding '
     'noise of np.angle',
     'complex64 solutions are generated with unwrapped phase excursions below 1 turn (np.angle of complex64 is float32, '
@@ -1860,6 +1863,16 @@ def run(ctx):
         for _ in range(n):
             check(ctx, gen(rng))
     timed('findings', lambda: [run_case(ctx, f['witness']) for f in ctx.findings])
+
+    def corpus():
+        import glob
+        import json
+        import os
+        cdir = os.path.join(os.path.dirname(os.path.dirname(os.path.dirname(os.path.abspath(__file__)))), 'corpus', 'C14')
+        for fn in sorted(glob.glob(os.path.join(cdir, '*.json'))):
+            run_case(ctx, json.load(open(fn))['case'])
+            ctx.count('corpus')
+    timed('corpus', corpus)
     timed('unwrap', lambda: many(ctx.scale(150, 2000), check_unwrap, gen_unwrap))
     timed('cinterp', lambda: many(ctx.scale(300, 5000), check_cinterp, gen_cinterp))
     timed('delay', lambda: many(ctx.scale(100, 1500), check_delay, gen_delay))
